@@ -60,7 +60,7 @@ WALL_BUDGET = {"quick": 900, "thorough": 3 * 3600}
 _MAYBE_MARKS = {"Mn", "Me", "Cn"}
 QUICK_AOTS = 60
 QUICK_REQUESTS = 5
-THOROUGH_REQUESTS = 40
+THOROUGH_REQUESTS = 120
 N_PROBES = 40
 
 
